@@ -64,10 +64,13 @@ class _World:
         access = Node("FFCXBackendAccess", symbols=symbols, entity_type=entity_type, integral_type=integral_type)
         backend = Node("FFCXBackend", symbols=symbols, access=access)
         fnodes, margs, scope, blocklist = {}, {}, {}, []
+        stale = {}
         for k, (fname, args) in enumerate(terms):
             v = Node("UflExpr", name=fname, _ufl_is_literal_=False)
             fnodes[k] = {"expression": v}
             scope[v] = self.sym(fname)
+            # the shared piecewise scope holds a value of the same expression cached by ANOTHER rule: it must not be preferred
+            stale[v] = self.sym("STALE_other_rule_" + fname)
             mads = []
             for j, (td, restr) in enumerate(args):
                 ma = 100 * k + j
@@ -82,7 +85,7 @@ class _World:
                        tensor_shape=list(tensor_shape), entity_type=entity_type, integral_type=integral_type)
         ir = Node("IntegralIR", expression=expr_ir, part=part)
         gen = Node("IntegralGenerator", ir=ir, backend=backend, temp_symbols={}, symbol_counters=collections.defaultdict(int),
-                   scopes={key: scope, (None, None): {}}, _ufl_names=set())
+                   scopes={key: scope, (None, None): stale}, _ufl_names=set())
         return gen, blocklist
 
 
@@ -163,7 +166,7 @@ def _samples(w: _World):
 
 @rule(
     "GEN-BLOCKS",
-    ["C01", "C02", "C07", "C08", "C10"],
+    ["C01", "C02", "C07", "C08", "C10", "C11"],
     "generate_block_parts and everything it calls are interpreted from source on twelve sample block sets (cell / "
     "exterior facet / interior facet with all four restriction blocks and a permuted table / vertex; scalar, blocked, "
     "mixed, real; piecewise, uniform, ones tables; rank 0, 1, 2 and part=diagonal). The emitted code - intermediates "
